@@ -261,3 +261,116 @@ Definition c04_ring_ops (P rank : nat) : list (nat * c04_mpi_op) :=       (* (ro
               then [(proc, C04_Ssend ((rank + 1) mod P)); (proc, C04_Recv ((rank + P - 1) mod P))]
               else [(proc, C04_Recv ((rank + P - 1) mod P)); (proc, C04_Ssend ((rank + 1) mod P))])
            (seq 1 (P - 1)).
+
+(* ---- one RemoteIndices object re-used over several pairs of index sets (object histories) --------------- *)
+(* std::set<int> neighbourIds: ascending, no duplicates *)
+Fixpoint c04_set_insert (x : nat) (s : list nat) : list nat :=
+  match s with
+  | [] => [x]
+  | y :: t => if x <? y then x :: s else if x =? y then s else y :: c04_set_insert x t
+  end.
+Definition c04_set_of (l : list nat) : list nat := fold_right c04_set_insert [] l.
+(* neighbourIds.erase(rank), for all ranks *)
+Definition c04_erase_self (hints : list (list nat)) : list (list nat) :=
+  map (fun pr => filter (fun q => negb (q =? fst pr)) (snd pr)) (combine (seq 0 (length hints)) hints).
+
+(* buildRemote of all ranks with the neighbourIds they hold: all empty -> ring, all non-empty -> neighbour mode;
+   ranks that disagree do not terminate / mix protocols: outside the property ("consistent" hints) *)
+Definition c04_is_nil {A} (l : list A) : bool := match l with [] => true | _ => false end.
+Definition c04_obj_buildf (two : bool) (d : c04_decomp) (ign incself : bool) (hints : list (list nat)) : list (c04_res c04_rmap) :=
+  if forallb c04_is_nil hints then c04_build two ign incself d None
+  else if forallb (fun h => negb (c04_is_nil h)) hints then c04_build two ign incself d (Some hints)
+  else map (fun _ => C04_Mixed) d.
+
+Record c04_slot := C04_mkslot { c04_sl_content : c04_decomp; c04_sl_srcSeq : Z; c04_sl_dstSeq : Z }.
+Definition c04_slot_dflt := C04_mkslot [] 0%Z 0%Z.
+Fixpoint c04_upd {A} (n : nat) (f : A -> A) (l : list A) : list A :=
+  match l, n with
+  | [], _ => []
+  | a :: t, O => f a :: t
+  | a :: t, S n => a :: c04_upd n f t
+  end.
+(* content after one beginResize/endResize of the source (ws) and/or target (wd) sets towards d *)
+Definition c04_merge_content (ws wd : bool) (old d : c04_decomp) : c04_decomp :=
+  map (fun on => (if ws then fst (snd on) else fst (fst on), if wd then snd (snd on) else snd (fst on))) (combine old d).
+
+Inductive c04_hop :=
+| C04_HSetIndexSets (slot : nat) (hints : option (list (list nat)))   (* setIndexSets(S, T, comm [, neighbours]) *)
+| C04_HSetNeighbours (hints : list (list nat))                        (* setNeighbours(c), per rank *)
+| C04_HSetIncludeSelf (b : bool)
+| C04_HFree
+| C04_HRebuild (ign : bool)
+| C04_HResize (slot : nat) (ws wd : bool) (d : c04_decomp).
+
+Section Obj.
+  Variable result : Type.
+  (* result of buildRemote on (content, ignorePublic, includeSelf, neighbourIds of all ranks) *)
+  Variable buildf : c04_decomp -> bool -> bool -> list (list nat) -> result.
+
+  Record c04_obj := C04_mkobj {
+    c04_ob_slot : option nat;               (* source_/target_: which pair of index sets (None: default constructed) *)
+    c04_ob_hints : list (list nat);         (* neighbourIds of every rank *)
+    c04_ob_incself : bool; c04_ob_pubIgn : bool; c04_ob_first : bool;
+    c04_ob_srcSeqNo : Z; c04_ob_dstSeqNo : Z;
+    c04_ob_map : option result }.           (* None: remoteIndices_ empty (never built / free()) *)
+
+  Record c04_sys := C04_mksys { c04_sy_two : bool; c04_sy_P : nat; c04_sy_slots : list c04_slot; c04_sy_obj : c04_obj }.
+
+  Definition c04_no_hints (P : nat) : list (list nat) := repeat [] P.
+
+  (* RemoteIndices() : source_(0), target_(0), sourceSeqNo_(-1), destSeqNo_(-1), publicIgnored(false), firstBuild(true), includeSelf(false) *)
+  Definition c04_obj_default (P : nat) : c04_obj := C04_mkobj None (c04_no_hints P) false false true (-1) (-1) None.
+  (* RemoteIndices(source, destination, comm, neighbours, includeSelf) *)
+  Definition c04_obj_ctor (slot : nat) (hints : list (list nat)) (incself : bool) : c04_obj :=
+    C04_mkobj (Some slot) (map c04_set_of hints) incself false true (-1) (-1) None.
+
+  Definition c04_obj_synced (y : c04_sys) : bool :=
+    let o := c04_sy_obj y in
+    match c04_ob_slot o with
+    | None => false
+    | Some s => let sl := nth s (c04_sy_slots y) c04_slot_dflt in
+                (c04_ob_srcSeqNo o =? c04_sl_srcSeq sl)%Z &&
+                (c04_ob_dstSeqNo o =? (if c04_sy_two y then c04_sl_dstSeq sl else c04_sl_srcSeq sl))%Z
+    end.
+
+  Definition c04_with_obj (y : c04_sys) (o : c04_obj) : c04_sys := C04_mksys (c04_sy_two y) (c04_sy_P y) (c04_sy_slots y) o.
+
+  Definition c04_hstep (y : c04_sys) (op : c04_hop) : c04_sys :=
+    let o := c04_sy_obj y in
+    match op with
+    | C04_HSetIndexSets s h =>        (* free(); source_=..; target_=..; firstBuild=true; setNeighbours(neighbours) *)
+        c04_with_obj y (C04_mkobj (Some s) (match h with Some l => map c04_set_of l | None => c04_no_hints (c04_sy_P y) end)
+                                  (c04_ob_incself o) (c04_ob_pubIgn o) true (c04_ob_srcSeqNo o) (c04_ob_dstSeqNo o) None)
+    | C04_HSetNeighbours l =>         (* neighbourIds.clear(); insert *)
+        c04_with_obj y (C04_mkobj (c04_ob_slot o) (map c04_set_of l) (c04_ob_incself o) (c04_ob_pubIgn o) (c04_ob_first o)
+                                  (c04_ob_srcSeqNo o) (c04_ob_dstSeqNo o) (c04_ob_map o))
+    | C04_HSetIncludeSelf b =>
+        c04_with_obj y (C04_mkobj (c04_ob_slot o) (c04_ob_hints o) b (c04_ob_pubIgn o) (c04_ob_first o)
+                                  (c04_ob_srcSeqNo o) (c04_ob_dstSeqNo o) (c04_ob_map o))
+    | C04_HFree =>                    (* lists deleted, remoteIndices_.clear(); firstBuild=true *)
+        c04_with_obj y (C04_mkobj (c04_ob_slot o) (c04_ob_hints o) (c04_ob_incself o) (c04_ob_pubIgn o) true
+                                  (c04_ob_srcSeqNo o) (c04_ob_dstSeqNo o) None)
+    | C04_HRebuild ign =>
+        match c04_ob_slot o with
+        | None => y                   (* null index sets: precondition violated, not generated *)
+        | Some s =>
+            if c04_ob_first o || negb (Bool.eqb ign (c04_ob_pubIgn o)) || negb (c04_obj_synced y) then
+              let sl := nth s (c04_sy_slots y) c04_slot_dflt in
+              (* buildRemote: "Nothing to communicate" returns before neighbourIds.erase(rank) *)
+              let early := (c04_sy_P y =? 1) && negb (c04_sy_two y || c04_ob_incself o) in
+              let hints' := if early then c04_ob_hints o else c04_erase_self (c04_ob_hints o) in
+              c04_with_obj y (C04_mkobj (Some s) hints' (c04_ob_incself o) ign false
+                                        (c04_sl_srcSeq sl) (if c04_sy_two y then c04_sl_dstSeq sl else c04_sl_srcSeq sl)
+                                        (Some (buildf (c04_sl_content sl) ign (c04_ob_incself o) hints')))
+            else y
+        end
+    | C04_HResize s ws wd d =>        (* endResize: seqNo_++ on each resized set; one index set: the target IS the source *)
+        C04_mksys (c04_sy_two y) (c04_sy_P y)
+          (c04_upd s (fun sl => C04_mkslot (c04_merge_content ws wd (c04_sl_content sl) d)
+                                  (c04_sl_srcSeq sl + (if ws then 1 else 0) + (if wd && negb (c04_sy_two y) then 1 else 0))
+                                  (c04_sl_dstSeq sl + (if wd && c04_sy_two y then 1 else 0))) (c04_sy_slots y))
+          o
+    end.
+
+  Definition c04_hrun (y : c04_sys) (ops : list c04_hop) : c04_sys := fold_left c04_hstep ops y.
+End Obj.
